@@ -1,15 +1,20 @@
 """C15 — Comment mode settings take effect; matched and unmatched partition the file."""
 from core import run_cases
 
-MODULES = ["Props.C15"]
+MODULES = ["Props.C15", "Props.C15Tie"]
 THEOREMS = ["Props.C15.c15_complement", "Props.C15.c15_partition", "Props.C15.c15_norun",
-            "Props.C15.c15_extract", "Props.C15.c15_extract_no_comment", "Props.C15.c15_fields"]
+            "Props.C15.c15_extract", "Props.C15.c15_extract_no_comment", "Props.C15.c15_fields",
+            "Props.C15Tie.return_mode_source_is_model", "Props.C15Tie.run_mode_source_is_model",
+            "Props.C15Tie.unmatched_mode_source_is_model", "Props.C15Tie.c15_settings"]
 
 
 def run(check, tier):
+    import tie_common
+
+    tie_common.run_pyops(check, tier)
     import run_suite as S
 
-    n = 800 if tier == "quick" else 16000
+    n = 1400 if tier == "quick" else 16000
     cases = [S.gen_case_modes(check.seed, i) for i in range(n)]
     results = run_cases("run_suite", "case_modes", cases, chunk=8)
     combos = set()
